@@ -11,6 +11,7 @@ ID = "C19"
 LEAN_MODULES = ["HgVerif.Props.C19"]
 THEOREMS = [
     "HgVerif.Dispatch.resolve_perm_invariant",
+    "HgVerif.Dispatch.P_C19_holds",
     "HgVerif.Dispatch.winner_unique_min",
     "HgVerif.Dispatch.resolve_noMatch_iff",
     "HgVerif.Dispatch.resolve_winner_iff",
